@@ -174,6 +174,37 @@ public:
 }
 
 
+MACRO_HOSTS = {
+    'c': ('C', b"""#define SWAP(a, b)   \\
+   do {              \\
+      int t = a;   \\
+      a = b; b = t;  \\
+   } while (0)   
+#define ONE 1   
+#define TWO(x) \\
+   ((x) + \\
+    2)\t 
+int f(int a, int b)   
+{
+   SWAP(a, b);   
+#define LOCAL(v) \\
+      ((v) * 2)  
+   return LOCAL(a) + ONE;\t
+}
+"""),
+    'cpp': ('CPP', b"""#define DECL(n) \\
+   class n {     \\
+   public:       \\
+      int v;     \\
+   }  
+DECL(K);   
+template<typename T> T id(T v) { return v; }  
+#define CALL(x) id<int>(x)  \t
+int g(int a) { return CALL(a) >>= 1; }   
+"""),
+}
+
+
 def load_input(spec):
     kind = spec[0]
     if kind == 'corpus':
@@ -308,6 +339,15 @@ def check(ctx):
                                 a = {'indent_with_tabs': str(iwt), 'pp_indent_with_tabs': str(ppt), 'indent_single_newlines': isn, 'indent_columns': str(ic),
                                      'output_tab_size': str(ots), 'pp_indent': ppi}
                                 tasks.append(('pphost:%s:%d:%d:%s:%d:%d:%s' % (hname, iwt, ppt, isn, ic, ots, ppi), ('text', htext), hlang, a))
+    # multi-line macros whose lines end in blanks, under every combination of the options that change how a macro is read
+    LEX = ('disable_processing_nl_cont', 'pp_ignore_define_body', 'tok_split_gte', 'enable_digraphs', 'use_form_feed_no_more_as_whitespace_character')
+    for hname, (hlang, htext) in sorted(MACRO_HOSTS.items()):
+        for bits in range(32):
+            for iwt in (0, 1, 2):
+                a = {n: ('true' if bits >> i & 1 else 'false') for i, n in enumerate(LEX)}
+                a.update({'indent_with_tabs': str(iwt), 'pp_indent_with_tabs': str((bits + iwt) % 4 - 1), 'align_nl_cont': str(bits % 2),
+                          'pp_indent': ('ignore', 'add')[iwt % 2]})
+                tasks.append(('macro:%s:%d:%d' % (hname, bits, iwt), ('text', htext), hlang, a))
     ctx.rule = ('case = corpus file (all languages), 70 % re-laid-out with hostile whitespace (leading space/tab mixes, trailing blanks, whitespace-only '
                 'lines, tabs between tokens; token stream checked unchanged by the independent lexer), formatted under tab/indent/align/pp/eof '
                 'option draws.  Every output line is classified by the independent lexer (inside comment/literal, directive, code) and judged: '
